@@ -78,7 +78,8 @@ def _scalar_literal(s, name, v):
         if is_str and v.startswith(name + ":"):
             return ("ok", ("scalar", name, v[len(name) + 1:]))
         return ("reject", "strict scalar")
-    if is_str:
+    if is_str or is_bool:
+        # transparent scalars hand the literal's value on: a string or a boolean stays what it is
         return ("ok", v)
     return ("lenient", None)
 
@@ -146,7 +147,7 @@ def _scalar_json(s, name, v):
         if is_str and v.startswith(name + ":"):
             return ("ok", ("scalar", name, v[len(name) + 1:]))
         return ("reject", "strict scalar")
-    if is_str:
+    if is_str or is_bool:
         return ("ok", v)
     return ("lenient", None)
 
